@@ -309,6 +309,9 @@ def scratch_defined_before_use(an, g, via_func):
     if fi is None:
         return False, "function not found"
     name = g[2]
+    gmod = an.repo.module(g[1]) if an.repo.has_module(g[1]) else None
+    if gmod is None or name not in gmod.assigns:
+        return False, "not a module-level variable (memo table or derived object)"
     stmts = [n for n in ast.walk(fi.node) if isinstance(n, ast.stmt) and n is not fi.node]
     stmts.sort(key=lambda n: (n.lineno, n.col_offset))
     for st in stmts:
@@ -345,4 +348,4 @@ def scratch_defined_before_use(an, g, via_func):
         if idxs[0] < len(cfi.params) and cfi.params[idxs[0]] in full_def_params(cfi):
             return True, "first mention %s:%d overwrites it completely via %s" % (fi.mod.path.split("/")[-1], st.lineno, q.split(".")[-1])
         return False, "%s does not completely overwrite its argument %d" % (q.split(".")[-1], idxs[0])
-    return True, "never mentioned"
+    return False, "the object is reached without being named in this function"
